@@ -45,13 +45,15 @@ FLOORS = {
 }
 
 _WORK = {"dir": None}
-ALIGNMENTS = [1, 1, 1, 1, 2, 4, 8, 16, 256]
+ALIGNMENTS = [1] * 8 + [2, 4, 8, 16, 256]
 
 
 # ------------------------------------------------------------------ generator
 def _pattern():
     return st.one_of(
-        st.sampled_from([None, None, None, "zeros", "ones", "inc"]),
+        st.none(),
+        st.none(),
+        st.sampled_from(["zeros", "ones", "inc"]),
         st.integers(1, 255).map(lambda v: "0x%02x" % v),
         st.integers(0x100, 0xFFFF).map(lambda v: "0x%04x" % v),
         st.integers(1, 255).map(str),
@@ -142,8 +144,9 @@ def _node(draw, depth: int, valid: bool, top: bool = True):
         node["size"] = derived + draw(st.one_of(st.sampled_from([1, 2, 3]), st.integers(1, 40)))
     elif size_mode == "minus":
         node["size"] = max(lo, derived - draw(st.sampled_from([1, 1, 2, 3, 8])), 0)
-    if valid and top and derived == 0 and not node["size"]:
-        node["size"] = draw(st.integers(1, 40))  # an empty image cannot be saved at all
+    if derived == 0 and not node["size"] and ((valid and top) or draw(st.integers(0, 7)) != 0):
+        # an empty image cannot be saved at all; empty sub-images are kept rare (validation says nothing about them)
+        node["size"] = draw(st.integers(1, 40))
     return node
 
 
@@ -361,10 +364,10 @@ def run_formats(case, o: Oracle) -> None:
                 pass
             with o.spsdk("bin", "load"):
                 back = BinaryImage.load_binary_image(path, offset=base, pattern=lp())
-                o.eq("bin", "loaded_bytes", bytes(back.export()), want)
-                o.eq("bin", "loaded_length", len(back), n)
                 o.eq("bin", "loaded_address", back.absolute_address, base)
-                back.validate()
+                if o.eq("bin", "loaded_length", len(back), n):
+                    o.eq("bin", "loaded_bytes", bytes(back.export()), want)
+                    back.validate()
 
     # ---- HEX / S19
     if not want_mem:
@@ -399,7 +402,8 @@ def run_formats(case, o: Oracle) -> None:
         with o.spsdk(sub, "load"):
             back = BinaryImage.load_binary_image(path, pattern=lp())
             o.eq(sub, "loaded_address", back.absolute_address, lo)
-            o.eq(sub, "loaded_length", len(back), hi - lo + 1)
+            if not o.eq(sub, "loaded_length", len(back), hi - lo + 1):
+                continue  # never export an image of a wrong (possibly gigantic) span
             got = bytes(back.export())
             if got != bytes(loaded_want):
                 got_mem = {lo + i: b for i, b in enumerate(got)}
